@@ -100,7 +100,7 @@ func prodScenario(name string, nfs bool) *mc.Scenario {
 		Liveness: []string{"C14"},
 		Livelock: []string{"C14"},
 		Panics:   []string{"C14"},
-		Bounds:   map[string]int{"quick": 2, "thorough": 4},
+		Bounds:   map[string]int{"quick": 2, "thorough": 3},
 		Build: func(x *mc.X) {
 			t := buildProdTree(nfs)
 			// T1: a file that gets a named attribute, is closed and
